@@ -114,28 +114,31 @@ func (vc *VC) Generate() (err error) {
 	// operations that must not occur at all
 	if vc.fc != nil {
 		for _, ns := range vc.fc.NoSites {
-			for _, b := range fn.Blocks {
-				for _, x := range b.Instrs {
-					ci, ok := x.(ssa.CallInstruction)
-					if !ok {
-						continue
-					}
-					name := ""
-					if bi, isB := ci.Common().Value.(*ssa.Builtin); isB {
-						name = bi.Name()
-					} else {
-						name, _ = vc.calleeName(ci.Common())
-					}
-					if name == ns.Site || matchCallee(name, ns.Site) {
-						vc.cur = b
-						o := vc.oblige("nosite", ns.Site, "false", mergeTags(ns.Tags, vc.tagsOfFunc()), x.Pos(), ns)
-						o.Reach = vc.reach[b]
-						if o.Reach == "" {
-							o.Reach = "true"
+			ns := ns
+			// helpers verified inline are part of the function: a forbidden operation moved into one is found
+			vc.walkInstrs(fn, "", 0, nil, func(x ssa.Instruction, path string) {
+				ci, ok := x.(ssa.CallInstruction)
+				if !ok {
+					return
+				}
+				name := ""
+				if bi, isB := ci.Common().Value.(*ssa.Builtin); isB {
+					name = bi.Name()
+				} else {
+					name, _ = vc.calleeName(ci.Common())
+				}
+				if name == ns.Site || matchCallee(name, ns.Site) {
+					b := x.Block()
+					vc.cur = nil
+					o := vc.oblige("nosite", ns.Site, "false", mergeTags(ns.Tags, vc.tagsOfFunc()), x.Pos(), ns)
+					o.Reach = "true"
+					if b.Parent() == fn {
+						if r := vc.reach[b]; r != "" {
+							o.Reach = r
 						}
 					}
 				}
-			}
+			})
 		}
 		if len(vc.fc.NoSites) > 0 {
 			vc.cur = nil
@@ -296,7 +299,7 @@ func (vc *VC) block(b *ssa.BasicBlock) {
 		var edges []stEdge
 		var conds []string
 		for _, p := range b.Preds {
-			if vc.backEdge[[2]int{p.Index, b.Index}] {
+			if b.Parent() == vc.fn && vc.backEdge[[2]int{p.Index, b.Index}] {
 				continue
 			}
 			if _, ok := vc.endState[p]; !ok {
@@ -309,7 +312,7 @@ func (vc *VC) block(b *ssa.BasicBlock) {
 		if len(edges) == 0 {
 			return
 		}
-		r := vc.declare(fmt.Sprintf("R_%d", b.Index), "Bool")
+		r := vc.declare(fmt.Sprintf("R_%s%d", vc.inlPrefix, b.Index), "Bool")
 		vc.assert(fmt.Sprintf("(= %s %s)", r, or(conds...)))
 		vc.reach[b] = r
 		vc.st = vc.mergeStates(edges)
@@ -332,7 +335,7 @@ func (vc *VC) block(b *ssa.BasicBlock) {
 	vc.endState[b] = vc.st
 	// back edges leaving this block: invariant must be re-established
 	for _, s := range b.Succs {
-		if vc.backEdge[[2]int{b.Index, s.Index}] {
+		if b.Parent() == vc.fn && vc.backEdge[[2]int{b.Index, s.Index}] {
 			vc.backEdgeCheck(b, vc.loops[s])
 		}
 	}
@@ -509,6 +512,17 @@ func (vc *VC) loopMods(li *loopInfo) *modSet {
 	ms := &modSet{keys: map[string]bool{}}
 	for b := range li.blocks {
 		for _, ins := range b.Instrs {
+			vc.instrMods(ins, ms, 0)
+		}
+	}
+	return ms
+}
+
+// instrMods: what one instruction may modify; a call to a helper that is verified inline contributes what the
+// helper's own instructions modify.
+func (vc *VC) instrMods(ins ssa.Instruction, ms *modSet, depth int) {
+	{
+		{
 			switch ins := ins.(type) {
 			case *ssa.Store:
 				for _, k := range vc.storeKeys(ins.Addr) {
@@ -534,6 +548,16 @@ func (vc *VC) loopMods(li *loopInfo) *modSet {
 					ms.keys[d], ms.keys[v] = true, true
 				}
 			case ssa.CallInstruction:
+				if call, isCall := ins.(*ssa.Call); isCall && depth < inlMaxDepth && !call.Call.IsInvoke() {
+					if callee := call.Call.StaticCallee(); callee != nil && vc.inlinable(callee) {
+						for _, cb := range callee.Blocks {
+							for _, x := range cb.Instrs {
+								vc.instrMods(x, ms, depth+1)
+							}
+						}
+						return
+					}
+				}
 				vc.callMods(ins, ms)
 			case *ssa.Next, *ssa.Range:
 			case *ssa.UnOp:
@@ -545,7 +569,6 @@ func (vc *VC) loopMods(li *loopInfo) *modSet {
 			}
 		}
 	}
-	return ms
 }
 
 // storeKeys: the heap components a store through ptr may change.
